@@ -450,6 +450,10 @@ func runC12Join(c *Ctx) {
 		switch FuncName(g) {
 		case "geom.(Envelope).ExpandToIncludeEnvelope", "geom.(Envelope).ExpandToIncludeXY", "geom.(Envelope).IsEmpty", "geom.fastMin", "geom.fastMax", "geom.newUncheckedEnvelope", "geom.NewEnvelope":
 			return true
+		// the member accessors (count and i-th member), for loops written with them
+		case "geom.(MultiPoint).NumPoints", "geom.(MultiPoint).PointN", "geom.(MultiLineString).NumLineStrings", "geom.(MultiLineString).LineStringN",
+			"geom.(MultiPolygon).NumPolygons", "geom.(MultiPolygon).PolygonN", "geom.(GeometryCollection).NumGeometries", "geom.(GeometryCollection).GeometryN":
+			return true
 		}
 		return false
 	}
